@@ -367,6 +367,8 @@ def cases(ctx):
 
 def run(ctx):
     rep = ctx.new_report()
+    from vlib.ref import noise as _noise
+    E.set_noise(_noise.netutils_noise())
     cs = cases(ctx)
     crosscheck(cs)
     E.run(rep, 'validators', [cs], _case)
